@@ -115,6 +115,36 @@ func SiteOf(stack string) string {
 	return "unknown"
 }
 
+// KindOf classifies a panic / fatal error message; part of the signature of a crash.
+func KindOf(msg string) string {
+	for _, k := range [][2]string{
+		{"slice bounds out of range", "slice"}, {"index out of range", "index"},
+		{"nil pointer dereference", "nil"}, {"makeslice", "makeslice"}, {"bytes.Buffer: too large", "buffer-too-large"},
+		{"negative count", "negative-count"}, {"stack overflow", "stack-overflow"}, {"stack exceeds", "stack-overflow"},
+		{"out of memory", "oom"}, {"cannot allocate memory", "oom"}, {"divide by zero", "div0"},
+		{"concurrent map", "concurrent-map"}, {"all goroutines are asleep", "deadlock"},
+	} {
+		if strings.Contains(msg, k[0]) {
+			return k[1]
+		}
+	}
+	return "other"
+}
+
+// sigOf builds the signature of a crash or hang.  Generated inputs: kind:site:panic-kind.  The
+// hand-written scenario streams (repaired defects, candidate findings) carry their class as well, so
+// that a known finding of a site can never hide the regression of a repaired defect of that site.
+func sigOf(kind, site, pk string, in *Input) string {
+	s := kind + ":" + site
+	if pk != "" {
+		s += ":" + pk
+	}
+	if strings.HasPrefix(in.Class, "fixed:") || strings.HasPrefix(in.Class, "suspect:") {
+		s += "@" + in.Class
+	}
+	return s
+}
+
 // OuterSiteOf is the outermost repository frame of a goroutine: the API the harness called.  Used
 // for hangs, where the innermost frame is whatever leaf happened to run when the dump was taken.
 func OuterSiteOf(stack string) string {
@@ -529,10 +559,14 @@ func Run(out *verifutil.Out, inputs []Input, cfg Config) Summary {
 			}
 			for _, p := range cr.panics[id] {
 				sum.Crashes++
-				out.Fail("crash:"+p[1], fmt.Sprintf("panic in target %s: %s; %s", p[0], p[2], describe(in)))
+				out.Fail(sigOf("crash", p[1], KindOf(p[2]), in), fmt.Sprintf("panic in target %s: %s; %s", p[0], p[2], describe(in)))
 			}
 			for _, f := range cr.fails[id] {
-				out.Fail(f[0], f[1]+"; "+describe(in))
+				fs := f[0]
+				if strings.HasPrefix(in.Class, "fixed:") || strings.HasPrefix(in.Class, "suspect:") {
+					fs += "@" + in.Class
+				}
+				out.Fail(fs, f[1]+"; "+describe(in))
 			}
 			for _, l := range cr.lines[id] {
 				out.Emit(l[0], l[1])
@@ -563,9 +597,16 @@ func Run(out *verifutil.Out, inputs []Input, cfg Config) Summary {
 		}
 		out.Count("out:" + tgt + ":crash")
 		out.Count("outcome:crash")
-		sig := kind + ":" + site
+		if site == "unknown" {
+			site = "in-" + tgt
+		}
+		pk := ""
+		if kind == "crash" {
+			pk = KindOf(head)
+		}
+		sig := sigOf(kind, site, pk, in)
 		if kind == "oom" {
-			sig = "oom:" + tgt
+			sig = sigOf("oom", tgt, "", in)
 		}
 		if !confirmed {
 			sig += ":only-in-batch"
@@ -665,6 +706,7 @@ func Run(out *verifutil.Out, inputs []Input, cfg Config) Summary {
 				continue
 			}
 			anyDied = true
+			absorb(cr2, []int{sid}) // what the targets before the fatal one answered (recovered panics included)
 			reportDeath(in, cr2, d2, true)
 			if d2.how == "timeout" {
 				// A hang costs StallS*3 seconds.  The same target is not run again on inputs of
